@@ -120,6 +120,21 @@ struct H {
         return gen::oneOf(d, d, d, f);
     }
 
+    // coverage-guided mode: byte 0: width (2 bits) | cycles | kind; 8 bytes: bit pattern
+    static bool from_fuzz(const uint8_t *d, size_t n, Case &c) {
+        pbt::FuzzBytes f(d, n);
+        uint8_t        b0 = f.sel();
+        static const int w[] = {1, 2, 4, 1};
+        c.width  = w[b0 & 3];
+        c.cycles = (b0 & 4) ? 3 : 1;
+        c.kind   = (b0 & 8) ? 1 : 0;
+        c.bits   = 0;
+        for (int i = 0; i < (c.kind == 0 ? 8 : 4); ++i) {
+            c.bits = (c.bits << 8) | f.sel();
+        }
+        c.cls = "coverage-guided";
+        return true;
+    }
     static std::string to_text(const Case &c) {
         pbt::KV kv;
         kv.put("kind", c.kind);
@@ -219,4 +234,4 @@ struct H {
 
 } // namespace
 
-int main(int argc, char **argv) { return pbt::run_main<H>(argc, argv); }
+PBT_MAIN(H)
